@@ -13,6 +13,7 @@ pub mod tables;
 pub mod ports;
 pub mod timer;
 pub mod irq;
+pub mod runloop;
 
 use crate::hv::e1::Case;
 use crate::hv::known::Known;
@@ -30,6 +31,7 @@ pub fn build(id: &str, tier: Tier, seed: u64, known: &[Known]) -> Option<Prop> {
         "C03" => alu::c03(tier, seed),
         "C09" => tables::c09(tier, seed),
         "C10" => irq::c10(tier, seed),
+        "C13" => runloop::c13(tier, seed),
         "C16" => ports::c16(tier, seed),
         "C17" => timer::c17(tier, seed),
         "C19" => tables::c19(tier, seed),
@@ -69,6 +71,7 @@ pub fn replay_other(prop: &str, doc: &serde_json::Value, path: &std::path::PathB
         Some("c16") => ports::replay_c16(&v["case"]),
         Some("c17") => timer::replay_c17(&v["case"]),
         Some("c10") => irq::replay_c10(&v["case"]),
+        Some("c13") => runloop::replay_c13(&v["case"]),
         other => {
             println!("no replay handler for engine {:?} (property {})", other, prop);
             return 2;
